@@ -328,7 +328,10 @@ func c15Table(sc string, seed uint64, rep int) (calls []c15Call) {
 				if h == 6 && hf != (rep+1)%3 {
 					continue
 				}
-				for _, s := range seeds {
+				for si, s := range seeds {
+					if h == 6 && si > 0 {
+						continue
+					}
 					add(c15Call{Fn: "xmss.KeyLife", Args: []string{hx(s)}, H: h, HF: hf, N: 4})
 				}
 			}
@@ -439,8 +442,8 @@ func c15Run(j *rt.Job, seed uint64, r *rt.Rec) {
 	perG := 12
 	if sc == "xmss-private-keys" {
 		perG = 3 // each call is a whole key life (keygen, signatures, a jump, verifications)
-		if G > 32 {
-			G = 32
+		if G > 24 {
+			G = 24
 		}
 	}
 	orders := make([][]int, G)
